@@ -20,7 +20,9 @@ PREFIX = {"http://www.w3.org/1999/xlink": "xlink", "http://www.w3.org/XML/1998/n
 EXTRA_TEXT = ["a<b", "x&y", "&amp;", "1 < 2 > 0", "\"q\"", "'s'", "`", "a=b", "</p>", "</script>", "</title>",
               "<!--", "-->", "--", "->", "--!>", "-", "]]>", "<![CDATA[", "\r", "a\rb", "é", "\U0001F600", "&#38;",
               "&lt;", "&notit;", "&amp", "&#x3C;", "<", ">", "&", "\x0b", "\xa0", " ", "=", "/", " /", "a b",
-              "<!--<script>", "<!-- <SCRIPT x", "<!--<script></script>-->", "<!-x", "<!"]
+              "<!--<script>", "<!-- <SCRIPT x", "<!--<script></script>-->", "<!-x", "<!",
+              # the element's own end tag in another case, and other end tags, inside raw text
+              "</SCRIPT>", "</Style >", "</XMP>x", "</sCRIPT", "</iframe\n>", "</b>", "a</STYLE>b", "</NOFRAMES>", "</Noembed>"]
 
 
 def rnd_opts(rng):
